@@ -1,9 +1,10 @@
 (* parsing of the scenario text shared by the C10 / C01 drivers; no model logic.
-   header: salt seal nv (id w)* extra... ; ops: e id cr seq frame parents... *)
+   header: salt sealcode nv (id w)* extra... ; ops: e id cr seq frame parents... | n (next epoch)
+   sealcode = sealing frame + 100 * policy *)
 open Model
 open Conv
 
-type scn = { vals : (n * n) list; seal : n; extra : string list; evs : fev list; nev : int }
+type scn = { vals : (n * n) list; seal : n; pol : n; extra : string list; eps : fev list list; nev : int }
 
 let parse (inp : string list) : scn =
   match split_on ";" inp with
@@ -15,19 +16,42 @@ let parse (inp : string list) : scn =
        let rec take k l acc = if k = 0 then (List.rev acc, l) else
          (match l with a :: b :: t -> take (k - 1) t ((n_of_tok a, n_of_tok b) :: acc) | _ -> failwith "bad header") in
        let vals, extra = take nv rest [] in
-       let evs = List.filter_map (fun g -> match g with
+       let eps = ref [] and cur = ref [] and nev = ref 0 in
+       List.iter (fun g -> match g with
+         | ["n"] -> eps := List.rev !cur :: !eps; cur := []
          | "e" :: id :: cr :: sq :: fr :: ps ->
-           Some { fe = { eid = n_of_tok id; ecr = nat_of_tok cr; eseq = n_of_tok sq; epar = List.map n_of_tok ps }; ffr = n_of_tok fr }
-         | _ -> None) ops in
-       { vals; seal = n_of_tok seal; extra; evs; nev = List.length evs }
+           incr nev;
+           cur := { fe = { eid = n_of_tok id; ecr = nat_of_tok cr; eseq = n_of_tok sq; epar = List.map n_of_tok ps }; ffr = n_of_tok fr } :: !cur
+         | _ -> ()) ops;
+       eps := List.rev !cur :: !eps;
+       let sc = int_of_string seal in
+       { vals; seal = n_of_tok (string_of_int (sc mod 100)); pol = n_of_tok (string_of_int (sc / 100)); extra;
+         eps = List.rev !eps; nev = !nev }
      | _ -> failwith "bad header")
 
-(* reference output -> tokens in the harness' format *)
-let event_tokens (rs : (n * n) list) : string list =
-  List.map (fun (code, high) -> "b" ^ tok_of_n high ^ ":p" ^ tok_of_n code) rs
+let run_reference (s : scn) = reference_epochs s.seal s.pol s.vals (n_of_tok "1") s.eps
 
-let block_tokens (bs : ((n * n) * n list) list) : string list =
-  let last = List.fold_left (fun _ ((f, _), _) -> tok_of_n f) "0" bs in
-  List.concat (List.map (fun ((f, a), ch) ->
-      ["B"; "1"; tok_of_n f; tok_of_n a; "0"; string_of_int (List.length ch)] @ List.map tok_of_n ch) bs)
-  @ ["L"; "1"; last]
+(* reference output -> tokens in the harness' format *)
+let event_tokens res : string list =
+  List.concat (List.map (fun ((rs, _), _) -> List.map (fun (code, high) -> "b" ^ tok_of_n high ^ ":p" ^ tok_of_n code) rs) res)
+
+(* events of epochs that the reference never opened (previous epoch not sealed) *)
+let unopened (s : scn) res : int =
+  let rec drop k l = if k = 0 then l else (match l with [] -> [] | _ :: t -> drop (k - 1) t) in
+  List.fold_left (fun a d -> a + List.length d) 0 (drop (List.length res) s.eps)
+
+let block_tokens res : string list =
+  let ep = ref 0 and last = ref "0" and sealed_n = ref 0 in
+  let toks = List.concat (List.map (fun ((_, bs), sealed) ->
+      incr ep; last := "0";
+      let n = List.length bs in
+      let t = List.concat (List.mapi (fun i ((f, a), ch) ->
+          last := tok_of_n f;
+          ["B"; string_of_int !ep; tok_of_n f; tok_of_n a; (if sealed && i = n - 1 then "1" else "0");
+           string_of_int (List.length ch)] @ List.map tok_of_n ch) bs) in
+      if sealed then (incr sealed_n; last := "0");
+      t) res) in
+  toks @ ["L"; string_of_int (1 + !sealed_n); !last]
+
+let any_block res = List.exists (fun ((_, bs), _) -> bs <> []) res
+let all_codes_zero res = List.for_all (fun ((rs, _), _) -> List.for_all (fun (c, _) -> tok_of_n c = "0") rs) res
